@@ -78,6 +78,7 @@ FLOORS = {
     'node:nil-1': (0.005, 'node'),
     'node:nil-padded': (0.003, 'node'),
     'instance:nil-false': (0.02, 'instance'),
+    'instance:doc-level-comment-pi': (0.25, 'instance'),
 }
 
 XS, XSI = G.XS, G.XSI
@@ -260,6 +261,12 @@ class Built:
         self.flags: set = set()
         self.n_attrs = 0
         self._fill(self.root, inst, (), '/' + self._step(spec, inst))
+        if tree_kind in ('lxml-before-doc', 'lxml-both-doc', 'lxml-sib'):
+            self.root.addprevious(mod.Comment(' before '))
+            self.root.addprevious(mod.ProcessingInstruction('pi', 'x="1"'))
+        if tree_kind in ('lxml-after-doc', 'lxml-both-doc', 'lxml-sib'):
+            self.root.addnext(mod.ProcessingInstruction('after', 'y'))
+            self.root.addnext(mod.Comment('after'))
         self.tree = mod.ElementTree(self.root) if tree_kind.endswith('-doc') else self.root
 
     @staticmethod
@@ -523,6 +530,8 @@ def judge_nodes(case, rec: Recorder | None = None) -> list[Disc]:
         if rec is not None:
             rec.cls('instance')
             rec.cls('instance:valid' if valid else 'instance:invalid' if valid is False else 'instance:validator-error')
+            if case['tree'] in ('lxml-before-doc', 'lxml-after-doc', 'lxml-both-doc', 'lxml-sib'):
+                rec.cls('instance:doc-level-comment-pi')
             for f in b.flags:
                 rec.cls('instance:' + f)
         if valid is None:
@@ -841,7 +850,11 @@ def _address(b: Built, node):
         sibs = [c for c in node.parent.children if isinstance(c, TextNode)]
         idx = next(i for i, c in enumerate(sibs) if c is node)
         return b.addr[node.parent.value] + (f'#text{idx}',)
-    return ('?' + type(node).__name__ + ':' + repr(node),)
+    # comments / processing instructions (document level or inside elements): position among the parent's children
+    parent = node.parent
+    base = ('#document',) if parent is None or isinstance(parent, DocumentNode) else b.addr[parent.value]
+    idx = next((i for i, c in enumerate(parent.children) if c is node), -1) if parent is not None else -1
+    return base + (f'#{type(node).__name__}{idx}',)
 
 
 def _kind_of_addr(a) -> str:
